@@ -83,6 +83,11 @@ func c09HasSite(s string, g oracle.Geometry) bool {
 func c09Interior(r *rand.Rand, fwd, rev string, g oracle.Geometry, used map[string]bool) string {
 	for {
 		in := randString(r, "ACGT", 6+r.Intn(30))
+		if r.Intn(6) == 0 {
+			// a degenerate stretch inside the insert (NNS/NNK saturation codons, an N run of a gap record)
+			at := r.Intn(len(in) + 1)
+			in = in[:at] + randString(r, "NSWKNNS", 2+r.Intn(7)) + in[at:]
+		}
 		if used[in] || used[oracle.MustRevComp(in)] {
 			continue
 		}
